@@ -22,7 +22,7 @@ RULE = ("Hypothesis builds a small benign ODE model (2-3 states), data from the 
 ASSUMPTIONS = [
     "LinAlgError / non-positive-definite kernel covariance at low N is a documented limitation (the code warns): such runs are discarded and counted",
     "prior supports keep the ODE benign (normal priors have sd <= 10% of the mean, so negative rates have probability < 1e-20)",
-    "the constraint= option (population conservation) is not exercised",
+    "the constraint=(pop_size, state) option is exercised only together with an inferred initial state, with pop_size = sum of the generating initial state",
 ]
 BUDGET = {"quick": (4, 30), "thorough": (16, 250)}
 TECHNIQUE = "property-based testing (Hypothesis @given over models, priors, schedules and get/continue histories) with a posterior-sample invariant whose distances are recomputed by an independent integrator"
@@ -67,12 +67,18 @@ def strategy(tier):
             else:
                 pars = [S.sig(v, 4), S.sig(0.08 * abs(v) + (0.02 if v == 0 else 0.0), 3)]
             priors.append({"name": q, "dist": fam, "pars": pars, "log": log})
+        # optional population constraint (pop_size, state): the named state's initial value is pop_size minus the others
+        constraint = None
+        inferred_states = [q for q in inferred if q in names]
+        free_states = [q for q in names if q not in inferred_states]
+        if inferred_states and free_states and draw(st.booleans()):
+            constraint = draw(st.sampled_from(free_states))
         G = draw(st.integers(1, 3))
         sched = draw(st.sampled_from(["list", "quantile", "quantile-inf"])) if G > 1 else "single"
         steps = draw(st.sampled_from([0, 0, 1, 2]))
         if sched == "list" and steps:
             sched = "quantile"                 # continue needs a tolerance below the previous final one: use the quantile form
-        return dict(c, priors=priors, N=draw(st.integers(20, 45)), G=G, sched=sched, q=draw(S.fl(0.3, 0.8, 2)),
+        return dict(c, priors=priors, constraint=constraint, N=draw(st.integers(20, 45)), G=G, sched=sched, q=draw(S.fl(0.3, 0.8, 2)),
                     tol_factor=draw(S.fl(0.5, 1.2, 2)), M=draw(st.sampled_from([None, None, "N-1", "half"])),
                     continues=steps, np_seed=draw(st.integers(0, 2 ** 32 - 1)))
     return case()
@@ -100,6 +106,10 @@ def _ref_cost_particle(case, y, particle):
             th[m["params"].index(pr["name"])] = float(val)
         else:
             x0[names.index(pr["name"])] = float(val)
+    if case.get("constraint"):
+        # ABC(..., constraint=(pop_size, state)): that state's initial value is whatever keeps the total at pop_size
+        ci = names.index(case["constraint"])
+        x0[ci] = float(sum(su["x0"])) - sum(v for i, v in enumerate(x0) if i != ci)
     times = lossgen.times_of(case)
     traj = lossgen.reference_traj(m, th, x0, su["t0"], times, max_amp=100.0)
     yhat = traj[:, lossgen.obs_cols(case)]
@@ -135,7 +145,11 @@ def oracle(case, rec):
     np.random.seed(case["np_seed"])
     obj = call(key + "/create_loss", case, pgabc.create_loss, case["loss"] + "Loss", params, model, list(su["x0"]), su["t0"],
                times, yy, sname, **kw)
-    abc = call(key + "/ABC", case, pgabc.ABC, obj, params)
+    if case.get("constraint"):
+        rec.label("constraint:" + ("first-state" if ir.state_names(m).index(case["constraint"]) == 0 else "other-state"))
+        abc = call(key + "/ABC", case, pgabc.ABC, obj, params, (float(sum(su["x0"])), case["constraint"]))
+    else:
+        abc = call(key + "/ABC", case, pgabc.ABC, obj, params)
     # count-based budget (not wall-clock): a healthy run needs a few cost evaluations per accepted particle
     budget = {"n": 0, "max": 40 * case["N"] * case["G"] * (1 + case["continues"])}
     inner_cost = obj.cost
